@@ -313,7 +313,7 @@ impl InviteUsage {
         invite: IncomingRequest,
         mut bye: IncomingRequest,
     ) -> Result<()> {
-        let bye_response = dialog.create_response(&invite, Code::OK, None)?;
+        let bye_response = dialog.create_response(&bye, Code::OK, None)?;
         let bye_tsx = endpoint.create_server_tsx(&mut bye);
 
         let invite_response = dialog.create_response(&invite, Code::REQUEST_TERMINATED, None)?;
